@@ -22,7 +22,18 @@ package commitlog
 // marks): a child runs the workload under `strace -e inject=...:signal=SIGKILL`
 // and dies on entering the N-th file-system call of a chosen kind; same oracle.
 //
-// The oracle (c05CheckRecovered) is shared by the three units.  Its epoch
+// interleave mode (unit `interleave`, same procedure as snapshot over the
+// "inter" family of plans): the workloads a sequential plan cannot produce -
+// operations running WHILE a cleaner pass is in progress (c05Inter: at the k-th
+// hit of a hook point inside Clean the pass is held and appends / replicated
+// sets / an HW move / a checkpoint / an election / a split run on the log) - and
+// catch-up streams (AppendMessageSet of sets that span leader-epoch
+// boundaries, op.BumpAt).  The kill and syscallkill units take part of their
+// workloads from this family too, and every recovered image of every unit is
+// fed one replicated set spanning three epochs before its final reopen, whose
+// epoch history is checked again.
+//
+// The oracle (c05CheckRecovered) is shared by all units.  Its epoch
 // clause goes both ways: every message's epoch is known to the recovered
 // history (c05EpochConsistent) AND every claim of the history is borne out by
 // the messages (c05HistoryBorneOut: no entry beyond the newest offset, entry
@@ -61,6 +72,40 @@ type c05Op struct {
 	// epoch that has messages; "last" = exactly the newest offset.  A class
 	// that is not available above the HW falls back to Frac.
 	Mode string
+	// M: message indexes (0 <= i < N) at which the leader epoch goes up by one
+	// BEFORE that message: a replicated set that spans leader-epoch boundaries
+	// (a follower catching up across leader changes gets size-cut batches that
+	// hold the tail of one epoch and the head of the next).  Index 0 = the first
+	// message of the set starts a new epoch (same as Bump).
+	BumpAt []int
+	// C: operations performed on the same log WHILE this cleaner pass is running
+	// (what the appender / replicator / HW goroutines of a partition do during a
+	// background clean), see c05Inter.
+	Inter []c05Inter
+}
+
+// c05Inter interleaves operations with a cleaner pass: at the Occ-th hit,
+// counted within that pass, of hook point Point ("" = of any point of
+// c05CleanPoints) the pass is held and Ops (A, M, H, K, E, S) run on the log;
+// then the pass goes on.  All those points are outside the log mutex and the
+// leader-epoch cache mutex (Clean takes the log mutex only for its final list
+// swap) and at most hold the lock of a non-active segment being rewritten or
+// deleted, which none of the interleaved operations touches - so they run on
+// the cleaner's goroutine, inside the hook handler, which is the schedule
+// "cleaner pre-empted here, other goroutine runs, cleaner resumes" made
+// deterministic.
+type c05Inter struct {
+	Point string
+	Occ   int
+	Ops   []c05Op
+}
+
+// c05CleanPoints: the hook points inside Clean() that are outside the log
+// mutex (epoch.beforeFlush / epoch.afterFlush are inside it).
+var c05CleanPoints = map[string]bool{
+	"clean.afterDeleteSeg": true, "segdelete.afterLogRemove": true, "newseg.afterLogCreate": true, "seg.write.afterLog": true,
+	"compact.afterCreateCleaned": true, "compact.afterWriteCleaned": true, "compact.emptyAfterDeleteNew": true, "compact.afterSegment": true,
+	"replace.afterClose": true, "replace.betweenRenames": true, "replace.afterRenames": true, "clean.afterCleanSegments": true,
 }
 
 type c05Plan struct {
@@ -71,27 +116,48 @@ type c05Plan struct {
 	RetMsgs  int64
 	RetBytes int64
 	Ops      []c05Op
+	// Family: "" = base workload list; "inter" = workloads of unit interleave
+	// (cleaner passes with interleaved operations, catch-up streams).
+	Family string
 }
 
-func (p c05Plan) String() string {
-	var sb strings.Builder
-	fmt.Fprintf(&sb, "seg=%d compact=%v retMsgs=%d retBytes=%d:", p.MaxSeg, p.Compact, p.RetMsgs, p.RetBytes)
-	for _, o := range p.Ops {
+func c05OpsString(sb *strings.Builder, ops []c05Op) {
+	for _, o := range ops {
 		switch o.Kind {
 		case "A", "M":
-			fmt.Fprintf(&sb, " %s%d", o.Kind, o.N)
+			fmt.Fprintf(sb, " %s%d", o.Kind, o.N)
 			if o.Bump {
 				sb.WriteString("e")
 			}
+			for _, b := range o.BumpAt {
+				fmt.Fprintf(sb, "@%d", b)
+			}
 		case "T", "H":
-			fmt.Fprintf(&sb, " %s%d", o.Kind, o.Frac)
+			fmt.Fprintf(sb, " %s%d", o.Kind, o.Frac)
 			if o.Mode != "" {
 				sb.WriteString("/" + o.Mode)
+			}
+		case "C":
+			sb.WriteString(" C")
+			for _, in := range o.Inter {
+				pt := in.Point
+				if pt == "" {
+					pt = "any"
+				}
+				fmt.Fprintf(sb, "{%s#%d:", pt, in.Occ)
+				c05OpsString(sb, in.Ops)
+				sb.WriteString("}")
 			}
 		default:
 			sb.WriteString(" " + o.Kind)
 		}
 	}
+}
+
+func (p c05Plan) String() string {
+	var sb strings.Builder
+	fmt.Fprintf(&sb, "seg=%d compact=%v retMsgs=%d retBytes=%d:", p.MaxSeg, p.Compact, p.RetMsgs, p.RetBytes)
+	c05OpsString(&sb, p.Ops)
 	return sb.String()
 }
 
@@ -117,7 +183,12 @@ func c05MakePlan(id int, rng *kit.RNG) c05Plan {
 		case x < 42:
 			p.Ops = append(p.Ops, c05Op{Kind: "A", N: rng.Range(1, 4), Bump: rng.Chance(1, 5)})
 		case x < 50:
-			p.Ops = append(p.Ops, c05Op{Kind: "M", N: rng.Range(1, 4), Bump: rng.Chance(1, 4)})
+			op := c05Op{Kind: "M", N: rng.Range(1, 5), Bump: rng.Chance(1, 4)}
+			// half of the replicated sets span one or two leader-epoch boundaries
+			if op.N >= 2 && rng.Bool() {
+				op.BumpAt = c05RandBumps(rng, op.N)
+			}
+			p.Ops = append(p.Ops, op)
 		case x < 58:
 			p.Ops = append(p.Ops, c05Op{Kind: "T", Frac: rng.Intn(1100), Mode: []string{"", "", "segbase", "epochstart", "last"}[rng.Intn(5)]})
 		case x < 70:
@@ -135,6 +206,22 @@ func c05MakePlan(id int, rng *kit.RNG) c05Plan {
 	// every plan ends with a clean and a truncate so those crash points are reached
 	p.Ops = append(p.Ops, c05Op{Kind: "A", N: 3}, c05Op{Kind: "C"}, c05Op{Kind: "A", N: 2}, c05Op{Kind: "T", Frac: 800}, c05Op{Kind: "K"})
 	return p
+}
+
+// c05RandBumps picks one or two epoch boundaries strictly inside a set of n
+// messages (n >= 2).
+func c05RandBumps(rng *kit.RNG, n int) []int {
+	a := rng.Range(1, n-1)
+	if n >= 3 && rng.Chance(1, 3) {
+		b := rng.Range(1, n-1)
+		if b < a {
+			a, b = b, a
+		}
+		if b > a {
+			return []int{a, b}
+		}
+	}
+	return []int{a}
 }
 
 func (p c05Plan) opts(dir string) Options {
@@ -189,6 +276,8 @@ type c05Image struct {
 	// including the in-flight operation.  Such an epoch may legitimately be in
 	// the history without any message carrying it.
 	Elected map[uint64]bool
+	// Suspect: see c05Exec.suspect.
+	Suspect map[uint64]bool
 }
 
 type c05Exec struct {
@@ -218,13 +307,46 @@ type c05Exec struct {
 	// truncClasses, when non-nil, counts the position classes of the
 	// truncation targets of this run.
 	truncClasses map[string]int
+	// cleaner pass in progress (operation C) and the operations interleaved
+	// with it
+	inClean         bool
+	nested          bool
+	nestedFailed    bool
+	cleanInter      []c05Inter
+	cleanDone       []bool
+	cleanOcc        map[string]int
+	cleanAny        int
+	cleanSegs       []c05SegInfo
+	cleanExtra      int
+	cleanRolledBase int64
+	// suspect: leader epochs whose entry is in the live epoch cache only, not in
+	// the one a running COMPACTING pass rebuilds: epochs announced by an election
+	// (entry at the then newest offset) whose first message an interleaved
+	// operation appends during the pass (when that append rolls, the entry lies
+	// before the rolled segment), and epochs introduced by an operation
+	// interleaved after the compaction had already read the newest segment (at
+	// clean.afterCleanSegments).  Clean() forgets such epochs when it
+	// replaces the epoch cache (known finding C05:epoch-behind-compaction-lost:*);
+	// an epoch mismatch of an image in which one of them is missing or misplaced
+	// gets that fingerprint.
+	suspect map[uint64]bool
+	failFn  func(fp, what string)
+	stats   map[string]int
 	// crash control
 	occ      map[string]int
 	killAt   string // "point:occ" (kill mode)
 	imageDir string // snapshot mode: where images go ("" = none)
-	images   []*c05Image
-	copyErr  error
-	seekCopy bool
+	// interOnly: images are taken only where the state differs from what a base
+	// workload produces: inside a cleaner pass once an interleaved operation has
+	// run, inside replicated sets that span epochs, and between operations after
+	// those (the plain appends / truncations / checkpoints / undisturbed passes
+	// around them are the base list's subject)
+	interOnly  bool
+	spanning   bool
+	cleanFired bool
+	images     []*c05Image
+	copyErr    error
+	seekCopy   bool
 }
 
 func (e *c05Exec) onPoint(name string, args ...interface{}) error {
@@ -235,18 +357,25 @@ func (e *c05Exec) onPoint(name string, args ...interface{}) error {
 			syscall.Kill(os.Getpid(), syscall.SIGKILL)
 			time.Sleep(time.Hour)
 		}
-		return nil
+	} else if e.imageDir != "" && (!e.interOnly || e.opKind == "idle" || (e.opKind == "M" && e.spanning) || (e.opKind == "C" && e.cleanFired)) {
+		e.takeImage(name, occ)
 	}
-	if e.imageDir == "" {
-		return nil
-	}
+	// the crash instant itself is BEFORE whatever is interleaved here
+	e.interleave(name)
+	return nil
+}
+
+func (e *c05Exec) takeImage(name string, occ int) {
 	dst := filepath.Join(e.imageDir, fmt.Sprintf("p%d-%s-%d", e.plan.ID, name, occ))
 	if err := c05CopyDir(e.dir, dst, e.seekCopy); err != nil {
 		e.copyErr = err
-		return nil
+		return
 	}
 	img := &c05Image{Plan: e.plan.ID, Point: name, Occ: occ, Dir: dst, OpIndex: e.opIdx, OpKind: e.opKind,
-		Pre: append([]vfRec(nil), e.pre...), InFlight: append([]vfRec(nil), e.inflight...), HW: e.hw}
+		Pre: append([]vfRec(nil), e.pre...), InFlight: append([]vfRec(nil), e.inflight...), HW: e.hw, Suspect: map[uint64]bool{}}
+	for k := range e.suspect {
+		img.Suspect[k] = true
+	}
 	img.Required = map[int64]bool{}
 	for k := range e.required {
 		img.Required[k] = true
@@ -256,7 +385,6 @@ func (e *c05Exec) onPoint(name string, args ...interface{}) error {
 		img.Elected[k] = true
 	}
 	e.images = append(e.images, img)
-	return nil
 }
 
 var c05Keys = [][]byte{nil, []byte("k1"), []byte("k2"), []byte("k3")}
@@ -289,31 +417,46 @@ func c05AllRequired(recs []vfRec) map[int64]bool {
 	return m
 }
 
-// c05CompactSurvivors computes what a clean must keep (see C08): with
+// c05SegInfo is what the retention / compaction rules look at, taken when a
+// cleaner pass starts (the pass works on that snapshot of the segment list).
+type c05SegInfo struct {
+	base, next int64
+	count      int64
+	bytes      int64
+}
+
+func c05SegInfos(l *commitLog) []c05SegInfo {
+	segs := l.Segments()
+	infos := make([]c05SegInfo, len(segs))
+	for i, s := range segs {
+		infos[i] = c05SegInfo{base: s.BaseOffset, next: s.NextOffset(), count: s.MessageCount(), bytes: s.Position()}
+	}
+	return infos
+}
+
+// c05MaxMsgBytes bounds the stored size of one workload message from above.
+const c05MaxMsgBytes = 256
+
+// c05MustSurvive computes what a clean must keep (see C08/C09): with
 // compaction, keyless messages, offsets >= hw, the newest segment and the latest
 // message <= hw of every key; retention may drop whole oldest segments.
-// Returned: the set of offsets that MUST survive a Clean() of the given log.
-func (e *c05Exec) mustSurviveClean() map[int64]bool {
-	segs := e.log.Segments()
+// Returned: the set of offsets of model that MUST survive a Clean() that starts
+// on the segment list infos with high watermark hw.  extraMsgs is the number of
+// messages that may be appended to the newest segment while the pass is running
+// (interleaved operations): the byte limit is evaluated after the message
+// limit has deleted segments, i.e. after hook points, so the newest segment
+// may have grown by then.  Everything at or after the base of the newest
+// segment of the snapshot (incl. segments rolled during the pass) survives.
+func c05MustSurvive(plan c05Plan, infos []c05SegInfo, model []vfRec, hw int64, extraMsgs int) map[int64]bool {
 	must := map[int64]bool{}
-	// start with everything, then remove what retention / compaction may take
-	type seginfo struct {
-		base, next int64
-		count      int64
-		bytes      int64
-	}
-	infos := make([]seginfo, len(segs))
-	for i, s := range segs {
-		infos[i] = seginfo{base: s.BaseOffset, next: s.NextOffset(), count: s.MessageCount(), bytes: s.Position()}
-	}
 	// retention: walk backwards from the newest segment like the documented rule
 	keepFrom := 0
-	if e.plan.RetMsgs > 0 && len(infos) > 1 {
+	if plan.RetMsgs > 0 && len(infos) > 1 {
 		total := infos[len(infos)-1].count
 		k := len(infos) - 1
 		for i := len(infos) - 2; i >= 0; i-- {
 			total += infos[i].count
-			if total > e.plan.RetMsgs {
+			if total > plan.RetMsgs {
 				break
 			}
 			k = i
@@ -322,12 +465,15 @@ func (e *c05Exec) mustSurviveClean() map[int64]bool {
 			keepFrom = k
 		}
 	}
-	if e.plan.RetBytes > 0 && len(infos) > 1 {
+	if plan.RetBytes > 0 && len(infos) > 1 {
 		total := infos[len(infos)-1].bytes
+		if plan.RetMsgs > 0 {
+			total += int64(extraMsgs) * c05MaxMsgBytes
+		}
 		k := len(infos) - 1
 		for i := len(infos) - 2; i >= 0; i-- {
 			total += infos[i].bytes
-			if total > e.plan.RetBytes {
+			if total > plan.RetBytes {
 				break
 			}
 			k = i
@@ -339,25 +485,253 @@ func (e *c05Exec) mustSurviveClean() map[int64]bool {
 	firstKept := infos[keepFrom].base
 	lastSegBase := infos[len(infos)-1].base
 	latest := map[string]int64{}
-	for _, r := range e.model {
-		if r.Off < firstKept || r.Key == nil || r.Off > e.hw {
+	for _, r := range model {
+		if r.Off < firstKept || r.Key == nil || r.Off > hw {
 			continue
 		}
 		latest[string(r.Key)] = r.Off
 	}
-	for _, r := range e.model {
+	for _, r := range model {
 		if r.Off < firstKept {
 			continue
 		}
-		if !e.plan.Compact || len(infos)-keepFrom <= 1 {
+		if !plan.Compact || len(infos)-keepFrom <= 1 {
 			must[r.Off] = true
 			continue
 		}
-		if r.Key == nil || r.Off >= e.hw || r.Off >= lastSegBase || latest[string(r.Key)] == r.Off {
+		if r.Key == nil || r.Off >= hw || r.Off >= lastSegBase || latest[string(r.Key)] == r.Off {
 			must[r.Off] = true
 		}
 	}
 	return must
+}
+
+func (e *c05Exec) mustSurviveClean() map[int64]bool {
+	return c05MustSurvive(e.plan, c05SegInfos(e.log), e.model, e.hw, 0)
+}
+
+// ---------------------------------------------------------------- operations interleaved with a cleaner pass
+
+func c05Has(xs []int, x int) bool {
+	for _, v := range xs {
+		if v == x {
+			return true
+		}
+	}
+	return false
+}
+
+// makeBatch draws the messages of an A / M operation (advancing the epoch as
+// the operation says).
+func (e *c05Exec) makeBatch(op c05Op) (recs []vfRec, msgs []*Message) {
+	if op.Bump {
+		e.epoch++
+	}
+	base := e.nextOffset()
+	recs = make([]vfRec, op.N)
+	msgs = make([]*Message, op.N)
+	for k := range recs {
+		if c05Has(op.BumpAt, k) {
+			e.epoch++
+		}
+		recs[k] = e.newRec(base + int64(k))
+		msgs[k] = recs[k].msg()
+	}
+	if op.Kind == "M" && len(recs) > 0 && recs[0].Epoch != recs[len(recs)-1].Epoch {
+		e.stat("replicated-set-spanning-epochs")
+		if len(op.BumpAt) > 1 {
+			e.stat("replicated-set-spanning-two-boundaries")
+		}
+		if op.Bump || c05Has(op.BumpAt, 0) {
+			e.stat("replicated-set-spanning-epochs-and-starting-one")
+		}
+	}
+	return recs, msgs
+}
+
+// appendBatch performs the log call of an A / M operation.
+func (e *c05Exec) appendBatch(op c05Op, recs []vfRec, msgs []*Message, before func()) ([]int64, error) {
+	if op.Kind == "M" {
+		// what a follower does with the bytes it fetched from the leader
+		ms, _, merr := newMessageSetFromProto(recs[0].Off, 0, msgs, false)
+		if merr != nil {
+			return nil, fmt.Errorf("encoding a message set failed: %v", merr)
+		}
+		before()
+		return e.log.AppendMessageSet(ms)
+	}
+	before()
+	return e.log.Append(msgs)
+}
+
+func (e *c05Exec) stat(k string) {
+	if e.stats != nil {
+		e.stats[k]++
+	}
+}
+
+// interleave is called at every hook hit; inside a cleaner pass it runs the
+// operations the plan interleaves at this hit.
+func (e *c05Exec) interleave(name string) {
+	if !e.inClean || e.nested || !c05CleanPoints[name] {
+		return
+	}
+	e.cleanOcc[name]++
+	e.cleanAny++
+	for i, in := range e.cleanInter {
+		if e.cleanDone[i] {
+			continue
+		}
+		if (in.Point == name && in.Occ == e.cleanOcc[name]) || (in.Point == "" && in.Occ == e.cleanAny) {
+			e.cleanDone[i] = true
+			e.cleanFired = true
+			e.nested = true
+			e.stat("interleaved@" + name)
+			e.doNested(in.Ops, name)
+			e.nested = false
+		}
+	}
+}
+
+// doNested runs operations while the cleaner pass of the current C operation
+// is held at hook point `at`.  The oracle state (pre / inflight / required /
+// elected / hw) is kept up to date so that crash images taken at the hook
+// points of the nested operations, and of the rest of the pass, are judged
+// against what had completed.
+func (e *c05Exec) doNested(ops []c05Op, at string) {
+	l := e.log
+	for _, op := range ops {
+		if e.nestedFailed {
+			return
+		}
+		bad := func(fp, what string) {
+			e.nestedFailed = true
+			if e.failFn != nil {
+				e.failFn(fp, what+" (interleaved with Clean at "+at+")")
+			}
+		}
+		switch op.Kind {
+		case "A", "M":
+			before := e.epoch
+			recs, msgs := e.makeBatch(op)
+			e.inflight = recs
+			if e.plan.Compact {
+				// the first message of an epoch announced by an election (before
+				// or during the pass) is appended while the pass is running
+				for _, r := range recs {
+					if e.elected[r.Epoch] && !e.suspect[r.Epoch] {
+						first := true
+						for _, m := range e.model {
+							if m.Epoch == r.Epoch {
+								first = false
+								break
+							}
+						}
+						if first {
+							e.suspect[r.Epoch] = true
+							e.stat("interleaved-first-message-of-elected-epoch-during-compaction")
+						}
+					}
+				}
+			}
+			seg := l.activeSegment()
+			offs, err := e.appendBatch(op, recs, msgs, func() {})
+			if err != nil {
+				bad("C05:harness-append", fmt.Sprintf("Append failed in workload: %v", err))
+				return
+			}
+			if len(offs) != op.N || offs[0] != recs[0].Off {
+				bad("C05:harness-append", fmt.Sprintf("Append returned %v, expected from %d", offs, recs[0].Off))
+				return
+			}
+			e.model = append(append([]vfRec(nil), e.model...), recs...)
+			e.pre = e.model
+			e.inflight = nil
+			for _, r := range recs {
+				e.required[r.Off] = true
+			}
+			e.stat("interleaved-append")
+			rolled := l.activeSegment() != seg
+			if rolled {
+				e.stat("interleaved-append-rolled")
+				if e.cleanRolledBase < 0 {
+					e.cleanRolledBase = l.activeSegment().BaseOffset
+				}
+			}
+			if e.epoch != before {
+				e.stat("interleaved-append-new-epoch")
+				// first message of the new epoch lies in a segment rolled during the pass
+				for _, r := range recs {
+					if r.Epoch > before {
+						if e.cleanRolledBase >= 0 && r.Off >= e.cleanRolledBase {
+							e.stat("interleaved-new-epoch-starts-in-rolled-segment")
+						}
+						break
+					}
+				}
+				if at == "clean.afterCleanSegments" && e.plan.Compact {
+					for x := before + 1; x <= e.epoch; x++ {
+						e.suspect[x] = true
+					}
+					e.stat("interleaved-new-epoch-behind-compaction-scan")
+				}
+			}
+		case "S":
+			split, err := l.checkAndPerformSplit()
+			if err != nil {
+				bad("C05:harness-split", fmt.Sprintf("split failed in workload: %v", err))
+				return
+			}
+			if split && e.cleanRolledBase < 0 {
+				e.cleanRolledBase = l.activeSegment().BaseOffset
+			}
+		case "H":
+			if len(e.model) == 0 {
+				continue
+			}
+			lo, hi := e.model[0].Off, e.model[len(e.model)-1].Off
+			h := lo + (hi-lo)*int64(op.Frac)/1000
+			if h > e.hw {
+				// the pass may or may not see the new HW: keep what both allow
+				alt := c05MustSurvive(e.plan, e.cleanSegs, e.model, h, e.cleanExtra)
+				for k := range e.required {
+					if !alt[k] {
+						delete(e.required, k)
+					}
+				}
+			}
+			l.SetHighWatermark(h)
+			if h > e.hw {
+				e.hw = h
+			}
+			e.stat("interleaved-hw-move")
+		case "K":
+			l.mu.RLock()
+			err := l.checkpointHW()
+			l.mu.RUnlock()
+			if err != nil {
+				bad("C05:harness-checkpoint", fmt.Sprintf("checkpointHW failed: %v", err))
+				return
+			}
+		case "E":
+			e.epoch++
+			e.elected[e.epoch] = true
+			if err := l.NewLeaderEpoch(e.epoch); err != nil {
+				bad("C05:harness-epoch", fmt.Sprintf("NewLeaderEpoch failed: %v", err))
+				return
+			}
+			e.stat("interleaved-election")
+		}
+	}
+}
+
+// idleImage is a crash instant between two operations (nothing in flight).
+func (e *c05Exec) idleImage() {
+	kind := e.opKind
+	e.opKind = "idle"
+	e.pre, e.inflight, e.required = e.model, nil, c05AllRequired(e.model)
+	e.onPoint("idle.afterOp") // nolint: errcheck
+	e.opKind = kind
 }
 
 // run executes the plan.  Returns an error only for harness-level problems;
@@ -374,6 +748,9 @@ func (e *c05Exec) run(fail func(fp, what string)) {
 	e.opIdx, e.opKind = -1, "open"
 	e.pre, e.inflight, e.required = nil, nil, map[int64]bool{}
 	e.elected = map[uint64]bool{}
+	e.failFn = fail
+	e.suspect = map[uint64]bool{}
+	e.cleanRolledBase = -1
 	mark := func(num int, before bool) {
 		if e.onOp != nil {
 			e.onOp(num, before)
@@ -408,31 +785,11 @@ func (e *c05Exec) run(fail func(fp, what string)) {
 		e.required = c05AllRequired(e.model)
 		switch op.Kind {
 		case "A", "M":
-			if op.Bump {
-				e.epoch++
-			}
 			base := e.nextOffset()
-			recs := make([]vfRec, op.N)
-			msgs := make([]*Message, op.N)
-			for k := range recs {
-				recs[k] = e.newRec(base + int64(k))
-				msgs[k] = recs[k].msg()
-			}
+			recs, msgs := e.makeBatch(op)
 			e.inflight = recs
-			var offs []int64
-			if op.Kind == "M" {
-				// what a follower does with the bytes it fetched from the leader
-				ms, _, merr := newMessageSetFromProto(base, 0, msgs, false)
-				if merr != nil {
-					fail("C05:harness-append", fmt.Sprintf("encoding a message set failed: %v", merr))
-					return
-				}
-				mark(i+1, true)
-				offs, err = l.AppendMessageSet(ms)
-			} else {
-				mark(i+1, true)
-				offs, err = l.Append(msgs)
-			}
+			e.spanning = op.Kind == "M" && recs[0].Epoch != recs[len(recs)-1].Epoch
+			offs, err := e.appendBatch(op, recs, msgs, func() { mark(i+1, true) })
 			if err != nil {
 				fail("C05:harness-append", fmt.Sprintf("Append failed in workload: %v", err))
 				return
@@ -443,6 +800,9 @@ func (e *c05Exec) run(fail func(fp, what string)) {
 			}
 			e.model = append(append([]vfRec(nil), e.model...), recs...)
 			mark(i+1, false)
+			if op.Kind == "M" && recs[0].Epoch != recs[len(recs)-1].Epoch {
+				e.idleImage()
+			}
 		case "S":
 			mark(i+1, true)
 			if _, err := l.checkAndPerformSplit(); err != nil {
@@ -539,11 +899,31 @@ func (e *c05Exec) run(fail func(fp, what string)) {
 			}
 			mark(i+1, false)
 		case "C":
-			e.required = e.mustSurviveClean()
+			e.cleanSegs = c05SegInfos(l)
+			e.cleanExtra = 0
+			for _, in := range op.Inter {
+				for _, o := range in.Ops {
+					if o.Kind == "A" || o.Kind == "M" {
+						e.cleanExtra += o.N
+					}
+				}
+			}
+			e.required = c05MustSurvive(e.plan, e.cleanSegs, e.model, e.hw, e.cleanExtra)
+			e.cleanInter, e.cleanDone = op.Inter, make([]bool, len(op.Inter))
+			e.cleanOcc, e.cleanAny, e.cleanRolledBase, e.cleanFired = map[string]int{}, 0, -1, false
 			mark(i+1, true)
-			if err := l.Clean(); err != nil {
+			e.inClean = len(op.Inter) > 0
+			err := l.Clean()
+			e.inClean = false
+			if e.nestedFailed {
+				return
+			}
+			if err != nil {
 				fail("C05:harness-clean", fmt.Sprintf("Clean failed in workload: %v", err))
 				return
+			}
+			if e.cleanFired {
+				e.stat("cleaner-passes-interleaved")
 			}
 			// the model becomes what is really there (C08/C09 judge the clean
 			// itself); it must contain the must-survive set.
@@ -557,6 +937,9 @@ func (e *c05Exec) run(fail func(fp, what string)) {
 			}
 			e.model = recs
 			mark(i+1, false)
+			if len(op.Inter) > 0 {
+				e.idleImage()
+			}
 		}
 	}
 	e.opIdx, e.opKind = len(e.plan.Ops), "close"
@@ -905,12 +1288,12 @@ func c05CheckRecovered(plan c05Plan, img *c05Image, fail func(kind, what string)
 	}
 	// 6. leader-epoch history matches the messages present
 	if what := c05EpochConsistent(rec.Epoch, recs, l.NewestOffset()); what != "" {
-		fail("epoch-mismatch", what)
+		fail(c05EpochKind("epoch-mismatch", rec.Epoch, recs, img.Suspect), what)
 		return rec, false
 	}
 	// ... and the converse: the history claims nothing the messages do not bear out
 	if what := c05HistoryBorneOut(l, rec.Epoch, recs, img); what != "" {
-		fail("epoch-mismatch", what)
+		fail(c05EpochKind("epoch-mismatch", rec.Epoch, recs, img.Suspect), what)
 		return rec, false
 	}
 
@@ -1018,6 +1401,34 @@ func c05CheckRecovered(plan c05Plan, img *c05Image, fail func(kind, what string)
 	if !appendN(4, "B") {
 		return rec, false
 	}
+	// B2: the recovered log as a follower catching up across two leader changes:
+	// one replicated set whose messages carry three successive leader epochs
+	{
+		base := l.NewestOffset() + 1
+		msgs := make([]*Message, 4)
+		rs := make([]vfRec, 4)
+		for i := range msgs {
+			if i == 1 || i == 3 {
+				ep++
+			}
+			rs[i] = mk(base+int64(i), i)
+			msgs[i] = rs[i].msg()
+		}
+		ms, _, merr := newMessageSetFromProto(base, 0, msgs, false)
+		if merr != nil {
+			fail("post-append-error", fmt.Sprintf("B2: encoding a message set failed: %v", merr))
+			return rec, false
+		}
+		offs, err := l.AppendMessageSet(ms)
+		if err != nil || len(offs) != len(rs) || offs[0] != base {
+			fail("post-append-error", fmt.Sprintf("B2: AppendMessageSet on the recovered log returned %v, %v (expected 4 offsets from %d)", offs, err, base))
+			return rec, false
+		}
+		model = append(model, rs...)
+		if !verify("after-replicated-set", true, nil) {
+			return rec, false
+		}
+	}
 	// C: clean (retention / compaction as configured)
 	if plan.Compact || plan.RetMsgs > 0 || plan.RetBytes > 0 {
 		ex := &c05Exec{plan: plan, log: l, model: model, hw: l.HighWatermark()}
@@ -1050,6 +1461,18 @@ func c05CheckRecovered(plan c05Plan, img *c05Image, fail func(kind, what string)
 	if !verify("after-second-reopen", true, nil) {
 		return rec, false
 	}
+	// the epoch history written while the recovered log was used (no election
+	// happened in that phase: the newest epoch is the newest message's) must
+	// again match the messages
+	ent2 := c05EpochEntries(l)
+	if what := c05EpochConsistent(ent2, model, l.NewestOffset()); what != "" {
+		fail(c05EpochKind("post-epoch-mismatch", ent2, model, img.Suspect), "after-second-reopen: "+what)
+		return rec, false
+	}
+	if what := c05EpochQueries(l, ent2, model, nil); what != "" {
+		fail(c05EpochKind("post-epoch-mismatch", ent2, model, img.Suspect), "after-second-reopen: "+what)
+		return rec, false
+	}
 	return rec, true
 }
 
@@ -1074,6 +1497,28 @@ func c05CheckGuarded(rep *kit.Report, plan c05Plan, img *c05Image, fail func(kin
 		rep.Inconc(fmt.Sprintf("watchdog: checking the image %s#%d of plan %d did not finish", img.Point, img.Occ, plan.ID))
 		return rec, false
 	}
+}
+
+// c05EpochKind classifies an epoch mismatch: when a message of the recovered
+// log carries a suspect epoch (see c05Exec.suspect) that the history does not
+// know, or places after that message, the mismatch is (or may be a knock-on
+// effect of) the known loss of epochs introduced during a compaction pass.
+func c05EpochKind(kind string, entries []epochOffset, recs []vfRec, suspect map[uint64]bool) string {
+	for _, m := range recs {
+		if !suspect[m.Epoch] || (len(entries) > 0 && m.Epoch < entries[0].leaderEpoch) {
+			continue
+		}
+		var have *epochOffset
+		for i := range entries {
+			if entries[i].leaderEpoch == m.Epoch {
+				have = &entries[i]
+			}
+		}
+		if have == nil || have.startOffset > m.Off {
+			return "epoch-behind-compaction-lost"
+		}
+	}
+	return kind
 }
 
 // c05EpochConsistent checks the leader-epoch cache against the messages
@@ -1174,8 +1619,18 @@ func c05HistoryBorneOut(l *commitLog, entries []epochOffset, recs []vfRec, img *
 			return fmt.Sprintf("the recovered epoch history %v knows leader epoch %d (from offset %d) but no message of the recovered log (%s) carries it and it was never announced by an election", entries, e.leaderEpoch, e.startOffset, offsList(recs))
 		}
 	}
+	return c05EpochQueries(l, entries, recs, img.Elected)
+}
+
+// c05EpochQueries: what the log answers to the two questions replication asks
+// (LastLeaderEpoch, LastOffsetForLeaderEpoch) agrees with the messages present.
+func c05EpochQueries(l *commitLog, entries []epochOffset, recs []vfRec, elected map[uint64]bool) string {
+	if len(recs) == 0 {
+		return ""
+	}
+	newest := l.NewestOffset()
 	lastMsg := recs[len(recs)-1]
-	if le := l.LastLeaderEpoch(); le != lastMsg.Epoch && !(le > lastMsg.Epoch && img.Elected[le]) {
+	if le := l.LastLeaderEpoch(); le != lastMsg.Epoch && !(le > lastMsg.Epoch && elected[le]) {
 		return fmt.Sprintf("LastLeaderEpoch() = %d after recovery, but the newest message (offset %d) carries leader epoch %d and epoch %d was never announced by an election (history %v)", le, lastMsg.Off, lastMsg.Epoch, le, entries)
 	}
 	seen := map[uint64]bool{}
@@ -1255,6 +1710,7 @@ func c05Plans() []c05Plan {
 			plans[3] = trunc(3, 90)
 		}
 	}
+	plans = append(plans, c05InterPlans(len(plans), root)...)
 	// replay / debugging: restrict to plans whose text contains C05_ONLY_PLAN
 	if only := os.Getenv("C05_ONLY_PLAN"); only != "" {
 		var sel []c05Plan
@@ -1264,6 +1720,206 @@ func c05Plans() []c05Plan {
 			}
 		}
 		return sel
+	}
+	return plans
+}
+
+// c05RandInterOps draws the operations interleaved at one hit.
+func c05RandInterOps(rng *kit.RNG) []c05Op {
+	var ops []c05Op
+	n := rng.Range(1, 4)
+	for i := 0; i < n; i++ {
+		switch x := rng.Intn(100); {
+		case x < 45:
+			ops = append(ops, c05Op{Kind: "A", N: rng.Range(1, 3), Bump: rng.Chance(1, 3)})
+		case x < 60:
+			op := c05Op{Kind: "M", N: rng.Range(2, 4), Bump: rng.Chance(1, 4)}
+			if rng.Bool() {
+				op.BumpAt = c05RandBumps(rng, op.N)
+			}
+			ops = append(ops, op)
+		case x < 75:
+			ops = append(ops, c05Op{Kind: "H", Frac: rng.Intn(1001)})
+		case x < 85:
+			ops = append(ops, c05Op{Kind: "E"})
+		case x < 93:
+			ops = append(ops, c05Op{Kind: "K"})
+		default:
+			ops = append(ops, c05Op{Kind: "S"})
+		}
+	}
+	return ops
+}
+
+var c05InterPointList = []string{"clean.afterDeleteSeg", "segdelete.afterLogRemove", "newseg.afterLogCreate", "seg.write.afterLog",
+	"compact.afterCreateCleaned", "compact.afterWriteCleaned", "compact.afterSegment", "replace.afterClose", "replace.betweenRenames",
+	"replace.afterRenames", "clean.afterCleanSegments"}
+
+func c05RandInter(rng *kit.RNG) []c05Inter {
+	var out []c05Inter
+	n := rng.Range(1, 2)
+	for i := 0; i < n; i++ {
+		in := c05Inter{Ops: c05RandInterOps(rng)}
+		if rng.Bool() {
+			in.Occ = rng.Range(1, 12) // k-th hit of any point of the pass
+		} else {
+			in.Point = c05InterPointList[rng.Intn(len(c05InterPointList))]
+			in.Occ = rng.Range(1, 3)
+		}
+		out = append(out, in)
+	}
+	return out
+}
+
+// c05CatchUp is what a follower appends while catching up across leader
+// changes: a stream of n messages with epoch boundaries at seeded positions,
+// cut into replicated sets at seeded points (fetch responses are cut by size,
+// not at epoch boundaries).
+func c05CatchUp(rng *kit.RNG) []c05Op {
+	n := rng.Range(4, 9)
+	bound := map[int]bool{}
+	for k := rng.Range(1, 3); k > 0; k-- {
+		bound[rng.Intn(n)] = true
+	}
+	var ops []c05Op
+	for a := 0; a < n; {
+		b := a + rng.Range(1, 4)
+		if b > n {
+			b = n
+		}
+		op := c05Op{Kind: "M", N: b - a}
+		for pos := a; pos < b; pos++ {
+			if bound[pos] {
+				op.BumpAt = append(op.BumpAt, pos-a)
+			}
+		}
+		ops = append(ops, op)
+		a = b
+	}
+	return ops
+}
+
+func c05MakeInterPlan(id int, rng *kit.RNG) c05Plan {
+	p := c05Plan{ID: id, Seed: rng.Uint64(), Family: "inter"}
+	p.MaxSeg = []int64{90, 160, 300}[rng.Intn(3)]
+	switch rng.Intn(5) {
+	case 0, 1:
+		p.Compact = true
+	case 2:
+		p.Compact = true
+		p.RetMsgs = int64(rng.Range(8, 16))
+	case 3:
+		p.RetMsgs = int64(rng.Range(5, 10))
+	default:
+		p.RetBytes = int64(rng.Range(250, 700))
+		if rng.Bool() {
+			p.RetMsgs = int64(rng.Range(8, 14))
+		}
+	}
+	for k := rng.Range(5, 8); k > 0; k-- {
+		p.Ops = append(p.Ops, c05Op{Kind: "A", N: rng.Range(1, 3), Bump: rng.Chance(1, 5)})
+	}
+	p.Ops = append(p.Ops, c05Op{Kind: "H", Frac: rng.Range(600, 1000)})
+	if rng.Bool() {
+		p.Ops = append(p.Ops, c05Op{Kind: "K"})
+	}
+	for r := rng.Range(2, 3); r > 0; r-- {
+		p.Ops = append(p.Ops, c05Op{Kind: "C", Inter: c05RandInter(rng)})
+		if rng.Bool() {
+			p.Ops = append(p.Ops, c05CatchUp(rng)...)
+		} else {
+			p.Ops = append(p.Ops, c05Op{Kind: "A", N: rng.Range(1, 3), Bump: rng.Chance(1, 3)}, c05Op{Kind: "A", N: rng.Range(1, 3)})
+		}
+		switch rng.Intn(4) {
+		case 0:
+			p.Ops = append(p.Ops, c05Op{Kind: "E"})
+		case 1:
+			p.Ops = append(p.Ops, c05Op{Kind: "T", Frac: rng.Intn(1100), Mode: []string{"", "epochstart", "last"}[rng.Intn(3)]})
+		}
+		p.Ops = append(p.Ops, c05Op{Kind: "H", Frac: rng.Range(500, 1000)})
+	}
+	p.Ops = append(p.Ops, c05Op{Kind: "A", N: 2}, c05Op{Kind: "C", Inter: c05RandInter(rng)}, c05Op{Kind: "A", N: 2}, c05Op{Kind: "T", Frac: 800}, c05Op{Kind: "K"})
+	return p
+}
+
+// c05InterPlans: the workloads of unit interleave (also sampled by the kill
+// and syscallkill units).  Fixed-shape plans reach every class in every case
+// list; seeded ones vary the positions.
+func c05InterPlans(firstID int, root *kit.RNG) []c05Plan {
+	A := func(n int, bump bool) c05Op { return c05Op{Kind: "A", N: n, Bump: bump} }
+	M := func(n int, bump bool, at ...int) c05Op { return c05Op{Kind: "M", N: n, Bump: bump, BumpAt: at} }
+	H := func(f int) c05Op { return c05Op{Kind: "H", Frac: f} }
+	K, E, S := c05Op{Kind: "K"}, c05Op{Kind: "E"}, c05Op{Kind: "S"}
+	C := func(in ...c05Inter) c05Op { return c05Op{Kind: "C", Inter: in} }
+	at := func(pt string, occ int, ops ...c05Op) c05Inter { return c05Inter{Point: pt, Occ: occ, Ops: ops} }
+	build := func(n, bumpAt int) []c05Op {
+		var ops []c05Op
+		for k := 0; k < n; k++ {
+			ops = append(ops, A(1+k%2, k == bumpAt))
+		}
+		return ops
+	}
+	var plans []c05Plan
+	add := func(p c05Plan) {
+		p.ID = firstID + len(plans)
+		p.Seed = root.Uint64()
+		p.Family = "inter"
+		plans = append(plans, p)
+	}
+	// compaction; appends (rolling, new epoch), a spanning replicated set, an
+	// HW move, an election, a checkpoint and an explicit split while cleaned
+	// segments are being written / swapped in / between segments / after the
+	// last one
+	add(c05Plan{MaxSeg: 90, Compact: true, Ops: append(build(6, 2), H(1000), K,
+		C(at("compact.afterCreateCleaned", 1, A(1, true), A(2, false)),
+			at("compact.afterSegment", 2, M(3, false, 1), H(1000), E),
+			at("replace.betweenRenames", 1, A(1, false)),
+			at("clean.afterCleanSegments", 1, A(2, false), K)),
+		A(2, false), H(1000),
+		C(at("compact.afterWriteCleaned", 1, A(1, true), M(2, false, 1)),
+			at("compact.afterSegment", 1, S, A(1, true))),
+		A(1, false), c05Op{Kind: "T", Frac: 900}, A(2, false), K)})
+	// compaction + retention; larger segments (interleaved appends that do not roll)
+	add(c05Plan{MaxSeg: 300, Compact: true, RetMsgs: 10, Ops: append(build(10, 4), H(900), K,
+		C(at("clean.afterDeleteSeg", 1, A(2, true), H(1000)),
+			at("segdelete.afterLogRemove", 1, A(1, false)),
+			at("", 5, M(3, true, 2)),
+			at("compact.afterSegment", 1, A(3, true), A(3, false), A(3, true))),
+		A(2, false), K, C(at("replace.afterClose", 1, E, A(2, false)), at("replace.afterRenames", 1, M(4, false, 1, 3))),
+		A(2, false), c05Op{Kind: "T", Frac: 800}, K)})
+	// retention only
+	add(c05Plan{MaxSeg: 90, RetMsgs: 6, Ops: append(build(8, 2),
+		C(at("clean.afterDeleteSeg", 1, A(1, true), A(1, false)),
+			at("segdelete.afterLogRemove", 2, E, A(2, false)),
+			at("clean.afterCleanSegments", 1, A(1, true))),
+		A(2, false), H(700),
+		C(at("", 2, M(4, false, 1, 3), H(500), K)),
+		A(1, false), c05Op{Kind: "T", Frac: 800}, K)})
+	// catch-up streams: a boundary at every position of a set, two boundaries,
+	// the first message starting an epoch, followed by truncations at the epoch
+	// starts that the sets introduced
+	add(c05Plan{MaxSeg: 160, Ops: []c05Op{A(2, false), M(4, false, 1), M(4, false, 2), M(4, false, 3), H(400), K,
+		M(4, true), M(4, false, 1, 3), M(4, false, 0, 2), M(3, true, 1), M(2, false, 1),
+		{Kind: "T", Mode: "epochstart", Frac: 1000}, M(3, false, 2), {Kind: "T", Mode: "last", Frac: 1000},
+		M(5, false, 1, 4), E, M(3, false, 1), {Kind: "T", Mode: "epochstart", Frac: 1000}, A(2, false), K}})
+	add(c05Plan{MaxSeg: 90, Compact: true, Ops: []c05Op{A(2, false), M(3, false, 1), M(3, false, 2), M(2, true), M(4, false, 1, 2), H(1000), K,
+		C(), M(3, false, 1), M(2, false, 1), H(1000), C(at("compact.afterSegment", 1, M(3, false, 1, 2))), A(1, false), {Kind: "T", Frac: 900}, K}})
+	// leader epochs introduced while a COMPACTING pass runs, in the two ways the
+	// pass does not see by itself (c05Exec.suspect): an election at a moment
+	// when the active segment is full, so that the first message of the new
+	// epoch opens a segment rolled during the pass (A3 before the pass fills the
+	// segment; E, then A1 rolls); and appends with new epochs after the compaction has read the
+	// newest segment (of two one-message appends at most one rolls)
+	add(c05Plan{MaxSeg: 90, Compact: true, Ops: append(build(6, 2), A(3, false), H(1000), K,
+		C(at("compact.afterSegment", 1, E, A(1, false))), A(2, false), K)})
+	add(c05Plan{MaxSeg: 700, Compact: true, Ops: append(build(14, 3), H(1000),
+		C(at("clean.afterCleanSegments", 1, A(1, true), A(1, true))), A(2, false), K)})
+	n := kit.Scale(4, 70)
+	for i := 0; i < n; i++ {
+		p := c05MakeInterPlan(0, root.Fork(uint64(0x1000+i)))
+		seed := p.Seed
+		add(p)
+		plans[len(plans)-1].Seed = seed
 	}
 	return plans
 }
@@ -1280,31 +1936,98 @@ var c05AllPoints = []string{
 func TestVerifC05Snapshot(t *testing.T) {
 	rep := kit.NewReport("C05", "snapshot")
 	defer rep.Write()
-	rep.SetRule("fault enumeration: for each seeded workload (Append and AppendMessageSet with epoch bumps, explicit splits, truncations > HW at seeded positions and exactly at a segment base / the first offset of the latest leader epoch / the newest offset, HW moves + checkpoints, NewLeaderEpoch, Clean with retention and/or compaction; 4 segment sizes) EVERY hit of EVERY crash point yields one crash image (directory copy under the process-crash model); each image is recovered with commitlog.New, checked (no duplicate / phantom / lost completed message, NewestOffset consistent, HW not above pre-crash HW, epoch history matches messages in both directions: every message epoch known to the history, and no history entry beyond the newest offset / starting at a message of another epoch / for an epoch nobody announced and no message carries, LastLeaderEpoch and LastOffsetForLeaderEpoch agreeing with the messages) and then used further (append+roll, truncate, clean, close+reopen); distinct non-trivial = distinct (plan, point, occurrence) images whose in-flight operation is not a pure no-op")
+	rep.SetRule("fault enumeration: for each seeded workload (Append and AppendMessageSet with epoch bumps - replicated sets also spanning one or two leader-epoch boundaries -, explicit splits, truncations > HW at seeded positions and exactly at a segment base / the first offset of the latest leader epoch / the newest offset, HW moves + checkpoints, NewLeaderEpoch, Clean with retention and/or compaction; 4 segment sizes) EVERY hit of EVERY crash point yields one crash image (directory copy under the process-crash model); each image is recovered with commitlog.New, checked (no duplicate / phantom / lost completed message, NewestOffset consistent, HW not above pre-crash HW, epoch history matches messages in both directions: every message epoch known to the history, and no history entry beyond the newest offset / starting at a message of another epoch / for an epoch nobody announced and no message carries, LastLeaderEpoch and LastOffsetForLeaderEpoch agreeing with the messages) and then used further (append+roll, truncate, a replicated set spanning three leader epochs, clean, close+reopen, after which the epoch history must again match the messages); distinct non-trivial = distinct (plan, point, occurrence) images whose in-flight operation is not a pure no-op")
 	rep.SetExhaustive(true)
 	rep.Assume("process-crash model: the OS keeps completed write/rename/unlink/ftruncate effects and dirty MAP_SHARED pages; power loss / missing fsync is not covered")
 	rep.Assume("crash instants are the hook points between file-system effects; crash instants between file-system calls that no hook point marks (e.g. inside the third-party atomic file writer) are the subject of unit syscallkill")
 	rep.Assume("compaction keys are nil or non-empty (empty-key handling is judged by C08)")
+	pointHits, truncHits, _ := c05RunSnapshot(rep, c05FamilyPlans(""))
+	for _, p := range c05AllPoints {
+		rep.Count("images@"+p, int64(pointHits[p]))
+		if pointHits[p] == 0 {
+			rep.Inconc("crash point never reached by this case list: " + p)
+		}
+	}
+	rep.Count("images@idle.afterOp", int64(pointHits["idle.afterOp"]))
+	for _, c := range []string{"at-segment-base", "at-newest-offset", "at-first-offset-of-latest-epoch", "at-first-offset-of-an-earlier-epoch", "everything"} {
+		rep.Count("truncate@"+c, int64(truncHits[c]))
+	}
+	for _, c := range []string{"at-segment-base", "at-newest-offset", "at-first-offset-of-latest-epoch"} {
+		if truncHits[c] == 0 {
+			rep.Inconc("truncation position class never produced by this case list: " + c)
+		}
+	}
+}
+
+func c05FamilyPlans(family string) []c05Plan {
+	var out []c05Plan
+	for _, p := range c05Plans() {
+		if p.Family == family {
+			out = append(out, p)
+		}
+	}
+	return out
+}
+
+func c05ImageFingerprint(kind string, img *c05Image) string {
+	return "C05:" + kind + ":" + img.Point
+}
+
+// c05RunSnapshot: every (point, occurrence) crash image of every given plan.
+func c05RunSnapshot(rep *kit.Report, plans []c05Plan) (pointHits, truncHits, stats map[string]int) {
 	verifhook.Set(c05Dispatch)
 	defer verifhook.Set(nil)
-	plans := c05Plans()
 	imgRoot := vfTempDir("c05img")
 	defer os.RemoveAll(imgRoot)
 	var mu sync.Mutex
-	pointHits := map[string]int{}
-	truncHits := map[string]int{}
+	pointHits = map[string]int{}
+	truncHits = map[string]int{}
+	stats = map[string]int{}
 	checked := 0
-	kit.Parallel(len(plans), kit.Workers(), func(i int) {
+	// Plans are executed by a few producers; their crash images are judged by a
+	// pool of workers (images, not plans, are the unit of work: plans differ a
+	// lot in how many images they yield).  The channel bounds the images waiting.
+	type job struct {
+		plan c05Plan
+		img  *c05Image
+	}
+	jobs := make(chan job, 32)
+	var wg sync.WaitGroup
+	for w := 0; w < kit.Workers(); w++ {
+		wg.Add(1)
+		go func() {
+			defer wg.Done()
+			for j := range jobs {
+				plan, img := j.plan, j.img
+				_, _ = c05CheckGuarded(rep, plan, img, func(kind, what string) {
+					rep.Violation(c05ImageFingerprint(kind, img), what, map[string]any{"plan": plan.String(), "plan_seed": plan.Seed, "point": img.Point,
+						"occurrence": img.Occ, "op_index": img.OpIndex, "op": img.OpKind, "hw_at_crash": img.HW, "pre": offsList(img.Pre), "inflight": offsList(img.InFlight)})
+				})
+				rep.Eval()
+				rep.Nontrivial(fmt.Sprintf("%d/%s/%d", plan.ID, img.Point, img.Occ))
+				mu.Lock()
+				pointHits[img.Point]++
+				checked++
+				mu.Unlock()
+				os.RemoveAll(img.Dir)
+			}
+		}()
+	}
+	kit.Parallel(len(plans), 3, func(i int) {
 		plan := plans[i]
 		dir := vfTempDir("c05w")
 		defer os.RemoveAll(dir)
-		ex := &c05Exec{plan: plan, dir: dir, imageDir: imgRoot, seekCopy: true, truncClasses: map[string]int{}}
+		ex := &c05Exec{plan: plan, dir: dir, imageDir: imgRoot, seekCopy: true, truncClasses: map[string]int{}, stats: map[string]int{}}
+		ex.interOnly = plan.Family == "inter"
 		ex.run(func(fp, what string) {
 			rep.Violation(fp, what, map[string]any{"plan": plan.String(), "seed": plan.Seed})
 		})
 		mu.Lock()
 		for k, v := range ex.truncClasses {
 			truncHits[k] += v
+		}
+		for k, v := range ex.stats {
+			stats[k] += v
 		}
 		mu.Unlock()
 		if ex.copyErr != nil {
@@ -1314,37 +2037,40 @@ func TestVerifC05Snapshot(t *testing.T) {
 			rep.Sample(map[string]any{"plan": plan.String(), "crash_images": len(ex.images)})
 		}
 		for _, img := range ex.images {
-			img := img
-			fp := func(kind string) string { return "C05:" + kind + ":" + img.Point }
-			_, _ = c05CheckGuarded(rep, plan, img, func(kind, what string) {
-				rep.Violation(fp(kind), what, map[string]any{"plan": plan.String(), "plan_seed": plan.Seed, "point": img.Point,
-					"occurrence": img.Occ, "op_index": img.OpIndex, "op": img.OpKind, "hw_at_crash": img.HW, "pre": offsList(img.Pre), "inflight": offsList(img.InFlight)})
-			})
-			rep.Eval()
-			rep.Nontrivial(fmt.Sprintf("%d/%s/%d", plan.ID, img.Point, img.Occ))
-			mu.Lock()
-			pointHits[img.Point]++
-			checked++
-			mu.Unlock()
-			os.RemoveAll(img.Dir)
+			jobs <- job{plan, img}
 		}
 	})
-	for _, p := range c05AllPoints {
-		rep.Count("images@"+p, int64(pointHits[p]))
-		if pointHits[p] == 0 {
-			rep.Inconc("crash point never reached by this case list: " + p)
-		}
-	}
-	for _, c := range []string{"at-segment-base", "at-newest-offset", "at-first-offset-of-latest-epoch", "at-first-offset-of-an-earlier-epoch", "everything"} {
-		rep.Count("truncate@"+c, int64(truncHits[c]))
-	}
-	for _, c := range []string{"at-segment-base", "at-newest-offset", "at-first-offset-of-latest-epoch"} {
-		if truncHits[c] == 0 {
-			rep.Inconc("truncation position class never produced by this case list: " + c)
-		}
+	close(jobs)
+	wg.Wait()
+	for _, k := range kit.SortedKeys(stats) {
+		rep.Count(k, int64(stats[k]))
 	}
 	rep.SetInfo("plans", len(plans))
 	rep.SetInfo("images_checked", checked)
+	return pointHits, truncHits, stats
+}
+
+// TestVerifC05Interleave: every (point, occurrence) crash image of the
+// workloads in which other operations run WHILE a cleaner pass is in progress,
+// and of catch-up streams (replicated sets spanning leader-epoch boundaries).
+func TestVerifC05Interleave(t *testing.T) {
+	rep := kit.NewReport("C05", "interleave")
+	defer rep.Write()
+	rep.SetRule("fault enumeration as in unit snapshot, over workloads of two further classes: (1) operations INTERLEAVED with a cleaner pass - at the k-th hit (within the pass) of a hook point inside Clean (after a segment was deleted by retention, after a cleaned segment was created / written / swapped in by its two renames, between segments, after the last segment; all outside the log mutex) the pass is held and appends (rolling and non-rolling, with and without a new leader epoch), replicated sets, an HW move, a checkpoint, an election or an explicit split run on the same log, then the pass finishes; crash images are taken at every hook hit of the pass AND of the interleaved operations, plus one between operations after the pass; the must-survive set is what both the old and the new HW allow compaction to keep, retention is evaluated on the segment list the pass started with, everything appended during the pass must survive; (2) catch-up streams - AppendMessageSet of sets that span leader-epoch boundaries (boundary at every position, two boundaries in one set, first message starting an epoch, stream cut into sets at seeded points); distinct non-trivial = distinct (plan, point, occurrence) images")
+	rep.SetExhaustive(true)
+	rep.Assume("process-crash model as in unit snapshot")
+	rep.Assume("interleaved operations run on the cleaner's goroutine inside the hook handler: a legal schedule of two goroutines (cleaner pre-empted at the hook point), made deterministic; they touch only the active segment, the log mutex and the epoch cache, none of which Clean holds at those points")
+	pointHits, _, stats := c05RunSnapshot(rep, c05FamilyPlans("inter"))
+	for _, p := range kit.SortedKeys(pointHits) {
+		rep.Count("images@"+p, int64(pointHits[p]))
+	}
+	for _, c := range []string{"cleaner-passes-interleaved", "interleaved-append", "interleaved-append-rolled", "interleaved-append-new-epoch",
+		"interleaved-new-epoch-starts-in-rolled-segment", "interleaved-hw-move", "interleaved-election", "replicated-set-spanning-epochs",
+		"replicated-set-spanning-two-boundaries", "replicated-set-spanning-epochs-and-starting-one"} {
+		if stats[c] == 0 {
+			rep.Inconc("class never produced by this case list: " + c)
+		}
+	}
 }
 
 // TestVerifC05KillChild is the child of kill mode: runs one plan and kills
@@ -1370,13 +2096,20 @@ func TestVerifC05Kill(t *testing.T) {
 	rep.SetRule("validation of the snapshot shortcut: for seeded (plan, point, occurrence) triples a child process runs the workload and SIGKILLs itself at that hit; the recovered content / HW / epoch history of its directory must equal that of the snapshot image of the same triple, and the same oracle is applied; distinct = triples")
 	verifhook.Set(c05Dispatch)
 	defer verifhook.Set(nil)
-	plans := c05Plans()
+	// the first base workloads and the first workloads of the interleave family
+	// (operations interleaved with a cleaner pass, catch-up streams)
+	base, inter := c05FamilyPlans(""), c05FamilyPlans("inter")
 	rng := kit.NewRNG(kit.Mix(kit.Seed(), 0xC05F))
-	nplans := kit.Scale(4, 24)
-	perPlan := kit.Scale(10, 25)
-	if nplans > len(plans) {
-		nplans = len(plans)
+	nbase, ninter := kit.Scale(3, 18), kit.Scale(3, 10)
+	perPlan := kit.Scale(8, 25)
+	if nbase > len(base) {
+		nbase = len(base)
 	}
+	if ninter > len(inter) {
+		ninter = len(inter)
+	}
+	plans := append(append([]c05Plan(nil), base[:nbase]...), inter[:ninter]...)
+	nplans := len(plans)
 	self := os.Getenv("VERIF_SELF")
 	if self == "" {
 		self = os.Args[0]
@@ -1392,6 +2125,7 @@ func TestVerifC05Kill(t *testing.T) {
 		plan := plans[pi]
 		dir := vfTempDir("c05kw")
 		ex := &c05Exec{plan: plan, dir: dir, imageDir: imgRoot, seekCopy: false}
+		ex.interOnly = plan.Family == "inter"
 		ex.run(func(fp, what string) {
 			rep.Violation(fp, what, map[string]any{"plan": plan.String()})
 		})
@@ -1399,10 +2133,14 @@ func TestVerifC05Kill(t *testing.T) {
 		if len(ex.images) == 0 {
 			continue
 		}
-		// prefer distinct points
+		// prefer distinct points; in the interleave family, the crash instants
+		// inside or after a pass with interleaved operations
 		byPoint := map[string][]*c05Image{}
 		for _, im := range ex.images {
 			byPoint[im.Point] = append(byPoint[im.Point], im)
+		}
+		if len(byPoint) == 0 {
+			continue
 		}
 		pts := kit.SortedKeys(byPoint)
 		chosen := map[*c05Image]bool{}
@@ -1443,7 +2181,7 @@ func TestVerifC05Kill(t *testing.T) {
 			return
 		}
 		rep.Eval()
-		fpx := func(kind string) string { return "C05:" + kind + ":" + j.img.Point }
+		fpx := func(kind string) string { return c05ImageFingerprint(kind, j.img) }
 		witness := map[string]any{"plan": j.plan.String(), "point": j.img.Point, "occurrence": j.img.Occ, "mode": "kill"}
 		// recover both; compare
 		dsnap, _ := c05DirDigest(j.img.Dir)
